@@ -69,6 +69,7 @@ typedef struct {
         RLE_RUN,  /* buffer up to the current position is a run */
         RLE_MIX   /* buffer up to the current position is a mix */
     } rle_state;  /* state of the buffer storage */
+    int encoding; /* TRUE when the state above belongs to the encoder (data not yet flushed) */
 } comp_coder_rle_info_t;
 
 #ifdef __cplusplus
